@@ -136,4 +136,43 @@ def render (os : List (Tid × Obs)) : List String :=
     | .ev e => s!"T {t} A {e}"
     | .ret r => s!"T {t} R {r}"
 
+/-! ### Initial state for trace replay
+
+The header comment of a case carries `own=<n>:<t>,…` (nodes a scheduled thread holds when the program starts; every
+other node belongs to the main thread, tid 90) and `init=<n>,<n>,…` (the untraced `put`s the main thread performs
+before the program starts, in order).  The initial puts are executed here by the machine itself, so the start state
+of the replay is a state of a run of the machine from `init own0`. -/
+
+def cfgWord (key : String) (cfg : List String) : Option String :=
+  cfg.findSome? (fun w => if w.startsWith (key ++ "=") then some (w.drop (key.length + 1)).toString else none)
+
+def parseOwn (s : String) : List (Nat × Nat) :=
+  (s.splitOn ",").filterMap fun w => match w.splitOn ":" with
+    | [a, b] => match a.toNat?, b.toNat? with
+      | some n, some t => some (n, t)
+      | _, _ => none
+    | _ => none
+
+def runOp (s : St) (t : Tid) (op : GOp) : St :=
+  match invoke s t op with
+  | none => s
+  | some s1 =>
+    let rec go (fuel : Nat) (s : St) : St :=
+      match fuel with
+      | 0 => s
+      | fuel + 1 => match step s t with
+        | some (s', _) => go fuel s'
+        | none => s
+    match result (go 16 s1) t with
+    | some (s2, _) => s2
+    | none => s1
+
+def initCfg (cfg : List String) : St :=
+  let own := parseOwn ((cfgWord "own" cfg).getD "")
+  let own0 : Nat → Tid := fun n => match own.find? (·.1 == n) with
+    | some (_, t) => t
+    | none => 90
+  let puts := (((cfgWord "init" cfg).getD "").splitOn ",").filterMap (·.toNat?)
+  puts.foldl (fun s n => runOp s 90 ⟨"put", [90, (n : Int)]⟩) (init own0)
+
 end CdsVerif.Algo.TaggedFreeList
